@@ -1,3 +1,4 @@
+import reprlib
 import sys
 from collections.abc import MutableSequence, MutableSet, Sequence, Set
 from typing import Any, Callable, Generic, Iterable, Optional, Tuple, Type, TypeVar
@@ -412,6 +413,7 @@ class KeyedSet(Generic[ItemType, KeyType], MutableSet, KeyedBase):  # pylint: di
             return len(other) == len(keyed) and self._dict == keyed._dict
         return NotImplemented
 
+    @reprlib.recursive_repr(fillvalue="...")  # (a set that is reached again from one of its own items)
     def __repr__(self):
         return f"{type_label(self._type)}({{{', '.join(repr(value) for value in self._dict.values())}}})"
 
